@@ -434,84 +434,67 @@ def r6_caller_locations(ctx):
     ctx.floor('C19.R6', 'functions that record a caller location', n, 23)
 
 
-class _InheritSem:
-    """absint semantics: Option-valued locals carry 'opt:Some' / 'opt:None' tags; Some(..) aggregates, copies, clone(),
-    as_ref()/as_deref()/map() preserve or create them; the queue item's parent_* fields and the result of
-    process_nesting_constraints are seeded per case."""
-    PRESERVING = ('core::clone::Clone::clone', 'core::option::Option::as_deref', 'core::option::Option::as_ref', 'core::option::Option::map',
-                  'core::option::Option::cloned', 'core::option::Option::as_deref_mut', 'core::option::Option::as_mut', 'core::option::Option::take')
+from ..absint_std import StdSem, TagInterp
 
-    def __init__(self, body, case, sink, dom_block):
-        self.body, self.case, self.sink, self.dom_block = body, case, sink, dom_block
+
+KINDS = {'path prefix': ('parent_path_prefix', 'str'), 'domain guard': ('parent_domain_guard', 'DomainGuard')}
+_BPMOD = 'pavexc::compiler::analyses::user_components::blueprint::'
+
+
+class _InheritSem(StdSem):
+    """the inherited value (a field of the queue item) and the blueprint's own value (a component of the result of
+    process_nesting_constraints) are seeded Some / None per case; everything else is the Option algebra of StdSem, crate-local helpers
+    of the blueprint module included"""
+    crate = 'pavexc'
+
+    def __init__(self, fb, case, sink, dom_block, main):
+        super().__init__(fb)
+        self.case, self.sink, self.dom_block, self.main = case, sink, dom_block, main
         self.seen = []
-        self._pending = None
 
-    def enum_switch(self, interp, path, body, bb, term, enum):
-        if enum == 'core::option::Option':
-            src = term.get('src')
-            tag = path.tags.get((body.id, src['l'])) if src and not src.get('p') else None
-            if tag in ('opt:Some', 'opt:None'):
-                return [tag[4:]]
+    def descend_into(self, short):
+        return short.startswith(_BPMOD) and short != self.sink and not short.endswith('process_nesting_constraints')
+
+    def domain_assign(self, interp, path, body, bb, st):
+        lhs, rv = st['lhs'], st['rv']
+        if lhs.get('p') or body is not self.main:
+            return None
+        ty = body.locals[lhs['l']]
+        if rv['k'] == 'use' and op_place(rv['op']) is not None and op_place(rv['op']).get('p') and ty.startswith('core::option::Option<'):
+            src = op_place(rv['op'])
+            for kind, (pfield, tyfrag) in KINDS.items():
+                if tyfrag in ty:
+                    if src['p'][-1] == 'f:' + pfield:
+                        return 'opt:' + self.case[kind][0]
+                    if path.tags.get((body.id, src['l'])) == 'nesting-constraints':
+                        return 'opt:' + self.case[kind][1]
         return None
 
-    def assign(self, interp, path, body, bb, st):
-        lhs, rv = st['lhs'], st['rv']
-        if lhs.get('p'):
-            return
-        ty = body.locals[lhs['l']]
-        if rv['k'] == 'agg' and rv.get('ak') == 'adt' and strip_generics(rv['adt']) == 'core::option::Option':
-            self._pending = ((body.id, lhs['l']), 'opt:' + rv['var'])
-        elif rv['k'] == 'use' and op_place(rv['op']) is not None and op_place(rv['op']).get('p'):
-            pp = op_place(rv['op'])['p']
-            for kind, (pfield, tyfrag) in KINDS.items():
-                if tyfrag in ty and ty.startswith('core::option::Option<'):
-                    if pp[-1] == 'f:' + pfield:
-                        self._pending = ((body.id, lhs['l']), 'opt:' + self.case[kind][0])
-                    elif path.tags.get((body.id, op_place(rv['op'])['l'])) == 'nesting-constraints':
-                        self._pending = ((body.id, lhs['l']), 'opt:' + self.case[kind][1])
-
-    def call(self, interp, path, body, bb, term, name):
-        short = strip_generics(name)
+    def domain_call(self, interp, path, body, bb, term, short):
         d = term.get('dest')
-        dk = (body.id, d['l']) if d is not None and not d.get('p') else None
-
-        def arg_tag(i):
-            pl = op_place(term['args'][i]) if len(term['args']) > i else None
-            if pl is None or not all(e == '*' for e in pl.get('p', [])):
-                return None
-            return path.tags.get((body.id, pl['l']))
-        if short == self.sink and body.dominates(self.dom_block, bb):
+        if short == self.sink and body is self.main and body.dominates(self.dom_block, bb):
             got = {}
             for i, ty in enumerate(term['aty']):
                 for kind, (_, tyfrag) in KINDS.items():
                     if ty.startswith('core::option::Option<') and tyfrag in ty:
-                        got[kind] = arg_tag(i)
+                        got[kind] = self.arg_tag(path, body, term, i)
             self.seen.append((got, body.loc(bb, term)))
             return []
-        for k in (dk,):
-            if k is not None:
-                path.alias.pop(k, None)
-                path.memo.pop(k, None)
-                path.tags.pop(k, None)
-        if short.endswith('process_nesting_constraints') and dk is not None:
+        if short.endswith('process_nesting_constraints') and d is not None and not d.get('p'):
+            dk = (body.id, d['l'])
+            path.alias.pop(dk, None)
+            path.memo.pop(dk, None)
             path.tags[dk] = 'nesting-constraints'
-        elif short in self.PRESERVING and dk is not None:
-            t = arg_tag(0)
-            if t in ('opt:Some', 'opt:None'):
-                path.tags[dk] = t
-        return [('next', path)]
-
-
-KINDS = {'path prefix': ('parent_path_prefix', 'str'), 'domain guard': ('parent_domain_guard', 'DomainGuard')}
+            return [('next', path)]
+        return None
 
 
 def r7_inheritance(ctx):
-    from ..absint import Interp, PathState
     ctx.rule('C19.R7', 'P11 case evaluation: in process_blueprint the path prefix and the domain guard handed to a nested blueprint are evaluated '
-             'abstractly for the four combinations (inherited Some/None x own Some/None): the result is Some whenever either is Some, None only '
-             'when both are None (a nested blueprint without a prefix of its own keeps the prefix of its ancestors).')
-    BP = 'pavexc::compiler::analyses::user_components::blueprint::'
-    b = ctx.need('C19.R7', 'process_blueprint', ctx.fb.body('pavexc', BP + 'process_blueprint'))
+             'abstractly (Option algebra; helpers of the blueprint module are entered) for the four combinations inherited Some/None x own '
+             'Some/None: the result is Some whenever either is Some, None only when both are None (a nested blueprint without a prefix of '
+             'its own keeps the prefix of its ancestors).')
+    b = ctx.need('C19.R7', 'process_blueprint', ctx.fb.body('pavexc', _BPMOD + 'process_blueprint'))
     if b is None:
         return
     dom = None
@@ -521,22 +504,12 @@ def r7_inheritance(ctx):
             dom = bb
     if ctx.need('C19.R7', 'read of QueueItem.parent_path_prefix', dom) is None:
         return
-
-    class TI(Interp):
-        def _stmt(self, path, body, bb, st, upvars):
-            self.sem._pending = None
-            super()._stmt(path, body, bb, st, upvars)
-            if self.sem._pending is not None:
-                k, tag = self.sem._pending
-                path.tags[k] = tag
-                self.sem._pending = None
-
     n = 0
     for parent in ('Some', 'None'):
         for own in ('Some', 'None'):
             case = {k: (parent, own) for k in KINDS}
-            sem = _InheritSem(b, case, BP + '_process_blueprint', dom)
-            TI(sem).run(b, {})
+            sem = _InheritSem(ctx.fb, case, _BPMOD + '_process_blueprint', dom, b)
+            TagInterp(sem).run(b, {})
             want = 'opt:Some' if 'Some' in (parent, own) else 'opt:None'
             for kind in KINDS:
                 got = sorted({str(g.get(kind)) for g, _ in sem.seen})
